@@ -36,6 +36,25 @@ class Impl:
         self.flavour = flavour
         self.topo = f.ExperimentTopology() if flavour == 'exp' else f.SubstrateTopology()
         self.saved = {}
+        self._other = None
+
+    def other(self):
+        """a second live topology of the same flavour in the same store (made when first needed)"""
+        if self._other is None:
+            f = self.f
+            self._other = f.ExperimentTopology() if self.flavour == 'exp' else f.SubstrateTopology()
+        return self._other
+
+    def on_other(self, fn):
+        main = self.topo
+        self.topo = self.other()
+        try:
+            return fn()
+        finally:
+            self.topo = main
+
+    def snapshot_other(self):
+        return self.on_other(self.snapshot) if self._other is not None else None
 
     # ---------------------------------------------------------------- snapshot
     def snapshot(self):
@@ -87,6 +106,8 @@ class Impl:
 
     # ---------------------------------------------------------------- handle resolution
     def node(self, name):
+        if isinstance(name, list):
+            return self.saved[name[1]]
         t = self.topo
         d = t.nodes
         if name in d:
@@ -106,6 +127,8 @@ class Impl:
 
     def iface(self, ref):
         k = ref[0]
+        if k == 'other_if':
+            return self.on_other(lambda: self.all_ifaces()[ref[1]])
         if k == 'cp':
             for h in self.all_ifaces():
                 if h.node_id == ref[1]:
@@ -120,6 +143,10 @@ class Impl:
         raise ValueError(ref)
 
     def svc(self, ref):
+        if ref[0] == 'saved':
+            return self.saved[ref[1]]
+        if ref[0] == 'other_svc':
+            return self.on_other(lambda: self.topo.network_services[ref[1]])
         if ref[0] == 'top':
             return self.topo.network_services[ref[1]]
         return self.node(ref[1]).network_services[ref[2]]
@@ -128,6 +155,8 @@ class Impl:
         """fresh handle of an existing element: ['node', name] | ['comp', node, comp] | ['svc', svcref] |
         ['cp', id] | ['link', name]"""
         k = ref[0]
+        if k == 'saved':
+            return self.saved[ref[1]]
         if k == 'node':
             return self.node(ref[1])
         if k == 'comp':
@@ -141,6 +170,11 @@ class Impl:
         raise ValueError(ref)
 
     KIND = {'node': 1, 'comp': 2, 'svc': 3, 'cp': 4, 'link': 5}
+
+    @staticmethod
+    def kind_of(h):
+        return {'Node': 'node', 'Component': 'comp', 'NetworkService': 'svc', 'PortMirrorService': 'svc',
+                'Interface': 'cp', 'Link': 'link'}[type(h).__name__]
 
     def pure_element(self, kind, kw):
         from fim.slivers.network_node import NodeSliver
@@ -266,7 +300,9 @@ class Impl:
             info['parent'] = self.node(s['node']).node_id
             info['pure'] = self.pure_service(s)
         elif op == 'add_interface':
-            info['svc'] = self.svc(s['svc']).node_id
+            h = self.svc(s['svc'])
+            info['svc'] = h.node_id
+            info['cached'] = [i.name for i in h.interface_list]
             info['pure'] = self.pure_iface(s)
         elif op == 'add_facility':
             info['pure_ns'] = self.pure_service({'nstype': s.get('nstype', 'VLAN')},
@@ -281,9 +317,10 @@ class Impl:
         elif op in ('rename', 'set_props'):
             h = self.element(s['el'])
             info['id'] = h.node_id
-            info['kind'] = self.KIND[s['el'][0]]
+            kind = self.kind_of(h)
+            info['kind'] = self.KIND[kind]
             if op == 'set_props':
-                info['pure'] = self.pure_element(s['el'][0], s.get('kw'))
+                info['pure'] = self.pure_element(kind, s.get('kw'))
         elif op == 'remove_link':
             pass
         elif op == 'unpeer':
@@ -307,21 +344,25 @@ class Impl:
             # the label checks of add_child_interface, evaluated on what the API shows before the call
             lv = None
             vlan = s.get('vlan')
-            if not vlan:
-                lv = 'TopologyException'
-            else:
-                used = [c.labels.vlan for c in h.interface_list if c.labels and c.labels.vlan]
-                if vlan in used:
+            try:
+                if not vlan:
                     lv = 'TopologyException'
-                elif not h.labels:
-                    lv = 'TopologyException'
+                else:
+                    used = [c.labels.vlan for c in h.interface_list if c.labels and c.labels.vlan]
+                    if vlan in used:
+                        lv = 'TopologyException'
+                    elif not h.labels:
+                        lv = 'TopologyException'
+            except Exception:   # a stale handle: the call itself fails before it gets to the label checks
+                lv = None
             info['label_verdict'] = lv
             info['pure'] = self.pure_iface(
                 {'itype': 'SubInterface'},
                 kw=lambda: dict(({'labels': self.f.Labels(vlan=vlan)} if vlan else {}), **self.kwargs(s.get('kw'))))
         elif op == 'peer':
-            info['a'] = self.svc(s['a']).node_id
-            info['b'] = self.svc(s['b']).node_id
+            a, b = self.svc(s['a']), self.svc(s['b'])
+            info['a'], info['an'], info['ca'] = a.node_id, a.name, [i.name for i in a.interface_list]
+            info['b'], info['bn'], info['cb'] = b.node_id, b.name, [i.name for i in b.interface_list]
             info['pure'] = self.pure_iface({'itype': 'ServicePort', 'kw': s.get('kw')})
         elif op == 'add_switch':
             info['pure_ns'] = self.pure_service({'nstype': s.get('nstype', 'P4')},
@@ -395,6 +436,8 @@ class Impl:
             t.remove_link(s['name'])
         elif op == 'save_if':
             self.saved[s['as']] = self.iface(s['ref'])
+        elif op == 'save':
+            self.saved[s['as']] = self.element(s['ref'])
         elif op == 'set_props':
             self.element(s['el']).set_properties(**kw)
         elif op == 'rename':
@@ -420,7 +463,10 @@ class Impl:
     def step(self, s):
         """run a step, swallowing (and reporting) the exception"""
         try:
-            self.run(s)
+            if s.get('on') == 'other':
+                self.on_other(lambda: self.run(s))
+            else:
+                self.run(s)
             return None
         except Exception as e:  # noqa
             return type(e).__name__
@@ -441,11 +487,13 @@ def observe_step(im, call, n_fresh=12):
     except Exception as e:  # the call cannot even be set up (reference to a thing that is not there)
         info, prep_err = None, type(e).__name__ + ': ' + str(e)[:80]
     pre = im.snapshot()
+    pre_other = im.snapshot_other()
     c0 = counter()
     fresh = ['u-%d' % (c0 + 1 + i) for i in range(n_fresh)]
     exc = im.step(call) if prep_err is None else None
     post = im.snapshot()
     return {'info': info, 'prep_err': prep_err, 'pre': pre, 'post': post,
+            'pre_other': pre_other, 'post_other': im.snapshot_other(),
             'exc': exc, 'fresh': fresh, 'drawn': counter() - c0}
 
 
